@@ -23,6 +23,9 @@ Emit ==
                  times |-> X.T, leads |-> X.L, locs |-> X.S,
                  cfg |-> [agg |-> DefaultCfg.agg, bt |-> DefaultCfg.bt, t |-> J(DefaultCfg.t), u |-> J(DefaultCfg.u)],
                  scores |-> [m \in AllMetrics |-> [a \in DOMAIN Axes |-> ScoreMatrix(X, m, Axes[a], DefaultCfg)]],
+                 \* other aggregators than the mean over the same contributing cases: a slice without any valid case has no sum either
+                 aggscores |-> [g \in {"sum", "max"} |-> [m \in {"obs", "fcst", "mae"} |-> [a \in DOMAIN Axes |->
+                                  ScoreMatrix(X, m, Axes[a], [DefaultCfg EXCEPT !.agg = g])]]],
                  \* the two metrics with a recorded C05 finding: what the code computes instead (KnownFindings.tla), so that the
                  \* checks of OTHER properties built on this module can still hold them to "same cases, missing never counted"
                  impl |-> [m \in {"alphaindex", "leps"} \cap AllMetrics |-> [a \in DOMAIN Axes |-> [k \in 1..NumSlices(X, Axes[a]) |-> [i \in 1..X.n |->
